@@ -297,9 +297,11 @@ Fixpoint tag_params (pf : list Z) (i : nat) (vs : list (option bytes)) : list (Z
   | v :: r => (param_fmt pf i, v) :: tag_params pf (S i) r
   end.
 
-Record bind_msg := { b_portal : bytes; b_stmt : bytes; b_params : list (Z * option bytes); b_rfmts : list Z }.
+Record bind_raw := { br_portal : bytes; br_stmt : bytes; br_pf : list Z;
+                     br_vals : list (option bytes); br_rf : list Z }.
 
-Definition decode_bind (body : bytes) : option bind_msg :=
+(* the fields of a Bind message as sent *)
+Definition decode_bind_raw (body : bytes) : option bind_raw :=
   match take_cstr body with Some (pname, l1) =>
   match take_cstr l1 with Some (sname, l2) =>
   match p_u16 l2 with Some (nf, l3) =>
@@ -308,9 +310,18 @@ Definition decode_bind (body : bytes) : option bind_msg :=
   match p_pvalues (Z.to_nat np) l5 with Some (vs, l6) =>
   match p_u16 l6 with Some (nr, l7) =>
   match p_u16s (Z.to_nat nr) l7 with Some (rf, _) =>
-    Some {| b_portal := pname; b_stmt := sname; b_params := tag_params pf 0 vs; b_rfmts := rf |}
+    Some {| br_portal := pname; br_stmt := sname; br_pf := pf; br_vals := vs; br_rf := rf |}
   | None => None end | None => None end | None => None end | None => None end
   | None => None end | None => None end | None => None end | None => None end.
+
+Record bind_msg := { b_portal : bytes; b_stmt : bytes; b_params : list (Z * option bytes); b_rfmts : list Z }.
+
+Definition decode_bind (body : bytes) : option bind_msg :=
+  match decode_bind_raw body with
+  | Some r => Some {| b_portal := br_portal r; b_stmt := br_stmt r;
+                      b_params := tag_params (br_pf r) 0 (br_vals r); b_rfmts := br_rf r |}
+  | None => None
+  end.
 
 (* ---------- strings.TrimSpace(query) == "" ---------- *)
 Definition ws_seqs : list bytes :=
